@@ -1,6 +1,67 @@
+//! xlate: translates the pure leaf functions and tables of /repo/src into Lean definitions
+//! (lean/IsoMdl/Generated/*.lean).  AST based (syn): formatting, comments and argument names of
+//! *other* items do not matter; a construct outside the supported subset is reported as
+//! `untranslated: <item> <reason>` on stdout and never guessed.
+use std::collections::BTreeMap;
+use std::path::{Path, PathBuf};
+
+mod leaf;
+mod tables;
+
+pub struct Out {
+    pub files: BTreeMap<String, String>,
+    pub untranslated: Vec<String>,
+}
+
+pub fn parse_file(p: &Path) -> Option<syn::File> {
+    let src = std::fs::read_to_string(p).ok()?;
+    syn::parse_file(&src).ok()
+}
+
+/// Items of a file with `#[cfg(test)]` modules removed.
+pub fn non_test_items(f: &syn::File) -> Vec<&syn::Item> {
+    f.items.iter().filter(|it| !is_cfg_test(item_attrs(it))).collect()
+}
+
+pub fn item_attrs(it: &syn::Item) -> &[syn::Attribute] {
+    match it {
+        syn::Item::Mod(m) => &m.attrs,
+        syn::Item::Fn(m) => &m.attrs,
+        syn::Item::Impl(m) => &m.attrs,
+        syn::Item::Enum(m) => &m.attrs,
+        syn::Item::Struct(m) => &m.attrs,
+        _ => &[],
+    }
+}
+
+pub fn is_cfg_test(attrs: &[syn::Attribute]) -> bool {
+    attrs.iter().any(|a| {
+        a.path().is_ident("cfg") && {
+            let s = quote::ToTokens::to_token_stream(a).to_string();
+            s.contains("test")
+        }
+    })
+}
+
+fn write_if_changed(path: &PathBuf, content: &str) {
+    if let Ok(old) = std::fs::read_to_string(path) {
+        if old == content { return; }
+    }
+    std::fs::write(path, content).unwrap();
+}
+
 fn main() {
     let args: Vec<String> = std::env::args().collect();
-    let _repo = &args[1];
-    let out = &args[2];
-    std::fs::create_dir_all(out).unwrap();
+    let repo = PathBuf::from(&args[1]);
+    let outdir = PathBuf::from(&args[2]);
+    std::fs::create_dir_all(&outdir).unwrap();
+    let mut out = Out { files: BTreeMap::new(), untranslated: vec![] };
+    leaf::run(&repo, &mut out);
+    tables::run(&repo, &mut out);
+    for (name, content) in &out.files {
+        write_if_changed(&outdir.join(name), content);
+    }
+    for u in &out.untranslated {
+        println!("untranslated: {u}");
+    }
 }
